@@ -12,7 +12,7 @@ theorem generated_assign_eq_hand (jobs size rank batch : Nat) (hs : 0 < size) (h
       .ok ((rankStart jobs size rank : Nat), (rankEnd jobs size rank : Nat), e) := by
   unfold assign_job_indices pyFloorDiv rankStart rankEnd
   have hsz : (size : Int) ≠ 0 := by omega
-  simp only [bind, Except.bind, pure, Except.pure, hsz, if_false, ← Int.ofNat_fdiv]
+  simp only [bind, Except.bind, pure, Except.pure, hsz, if_false, fquot, ← Int.ofNat_fdiv]
   by_cases hl : rank + 1 = size
   · have : (rank : Int) = (size : Int) - 1 := by omega
     simp [this, hl]
